@@ -27,6 +27,5 @@ func main() {
 		fmt.Fprintln(os.Stderr, "vh2codec: unknown property", r.Prop)
 		os.Exit(vkit.ExitInconclusive)
 	}
-	profStop()
 	r.Finish()
 }
